@@ -120,6 +120,30 @@ def run(F, run, tier):
         _, ok = call("purge_leading", [Pm], inst, "R13.1")
         if ok:
             run.check(PI.coeffs(Pm) == list(a), "R13.1", "Polynomial::purge_leading", "trims-zeros:" + inst, F.loc(M["purge_leading"]), "purge_leading gives %s" % PI.coeffs(Pm))
+    # concrete tolerances: editing one power must not disturb small but non-zero neighbours (a tolerance-based trim hidden in an edit)
+    T = sp.Rational(1, 10 ** 10)
+    for label, cs0, tol_, k in (("lead-above-small", [sp.Integer(3), T / 2, sp.Integer(7)], T, 2), ("lead-above-quarter@tol=1/2", [sp.Integer(3), sp.Rational(1, 4), sp.Integer(7)], sp.Rational(1, 2), 2),
+                                ("interior", [sp.Integer(3), sp.Integer(5), T / 2, sp.Integer(7)], T, 1), ("absent-power", [sp.Integer(3), T / 2], T, 4)):
+        Pm = PI.poly(list(cs0), tol_)
+        _, ok = call("purge_coefficient", [Pm, sp.Integer(k)], label, "R13.1")
+        if ok:
+            want = list(cs0)
+            if k < len(want):
+                want[k] = 0
+            cs = PI.coeffs(Pm)
+            padded = list(cs) + [0] * (len(want) - len(cs))
+            good = 1 <= len(cs) <= len(want) and all(sym.is_zero(u - w) for u, w in zip(padded, want))
+            run.check(good, "R13.1", "Polynomial::purge_coefficient", "exactly-that-power:concrete-tolerance:" + label, F.loc(M["purge_coefficient"]),
+                      "purge_coefficient(%d) on %s with zero tolerance %s leaves %s, expected %s: a coefficient other than the purged power was changed (tolerance-based trimming)"
+                      % (k, [str(x) for x in cs0], tol_, [str(x) for x in cs], [str(x) for x in want]), sample="purge_coefficient(%d), %s" % (k, label))
+        Pm = PI.poly(list(cs0), tol_)
+        _, ok = call("set_coefficient", [Pm, sp.Integer(k), sp.Integer(9)], label, "R13.1")
+        if ok:
+            want = list(cs0) + [0] * max(0, k + 1 - len(cs0))
+            want[k] = sp.Integer(9)
+            cs = PI.coeffs(Pm)
+            run.check(len(cs) == len(want) and all(sym.is_zero(u - w) for u, w in zip(cs, want)), "R13.1", "Polynomial::set_coefficient", "exactly-that-power:concrete-tolerance:" + label,
+                      F.loc(M["set_coefficient"]), "set_coefficient(%d, 9) on %s with zero tolerance %s leaves %s, expected %s" % (k, [str(x) for x in cs0], tol_, [str(x) for x in cs], [str(x) for x in want]))
     # complex coefficients: the negligibility test must look at both parts
     for n in (2, 3, 4):
         for kind, cs in (("imaginary-lead", PI.with_imaginary_lead("a", n)), ("complex", PI.csymbols("a", n))):
